@@ -754,6 +754,10 @@ func runC20(c *core.Ctx, i int) {
 	if i%500 == 7 {
 		c20builtin(c)
 	}
+	if i%64 == 3 {
+		// a registered type as the root type of a file / codec, and a registered type under an enum schema
+		c20rootAndEnum(c, c.Rand(i, 99))
+	}
 	if i%4 == 1 {
 		// the library's own registrations (null.*, time.Time) in every position under every schema they accept
 		c20builtinPositions(c, c.Rand(i, 77), 3)
@@ -918,7 +922,7 @@ func init() {
 		ID:        "C20",
 		Level:     "exploration",
 		Technique: "runtime monitoring: instrumented custom codecs (unique id per registration, every Read/Write/Skip/New/Omit logged, value-transforming encodings) registered for 7 custom types placed in 15 positions of a generic holder struct; invocation log, emitted schema, reference-decoded bytes and round trip are checked per case",
-		Rule: "custom types of struct, named int64, named string, named []int64, named []byte kinds with registered schemas primitive / array / record / [null,long]; positions: field, *T, **T, []T, []*T, map[string]T, map[string]*T, omitempty T, omitempty *T, nested struct field and slice; 1-3 registrations per case with RegisterSchema before/between/after; unregistered look-alike types alongside; the library's own registered types (null.Int/Float/Bool/String/Time, time.Time) in 10 positions (three pointer fields, map value, pointer map value, array of pointers, array, pointer to pointer, plain field) under every schema each accepts (long/int, double/float, string, timestamp-micros/millis, date, plain long; bare or [null,T]), decoded from reference-encoded records and written back; " +
+		Rule: "custom types of struct, named int64, named string, named []int64, named []byte kinds with registered schemas primitive / array / record / [null,long]; positions: field, *T, **T, []T, []*T, map[string]T, map[string]*T, omitempty T, omitempty *T, nested struct field and slice; 1-3 registrations per case with RegisterSchema before/between/after; unregistered look-alike types alongside; the library's own registered types (null.Int/Float/Bool/String/Time, time.Time) in 10 positions (three pointer fields, map value, pointer map value, array of pointers, array, pointer to pointer, plain field) under every schema each accepts (long/int, double/float, string, timestamp-micros/millis, date, plain long; bare or [null,T]), decoded from reference-encoded records and written back; a struct type with a registered record schema and codec as the root type of NewEncoderFor/ReadFile/Schema.Codec; a named string type registered with an enum schema and an index codec as field, pointer, slice item and map value; " +
 			"distinct_nontrivial = distinct (type, registrations, order, codec) combinations",
 		Explanation: "Each custom codec writes a transformed encoding (e.g. v xor 0x2A), so a position that bypasses it is visible to the reference decoder, not only in the log. Oracle: only the most recent registration's builder is consulted; the schema at every position is the registered one under the documented mapping; Write and Read are each invoked at least once per non-null occurrence; unregistered look-alike types (same underlying kind) are encoded plainly; values round-trip.",
 		Assumptions: []string{"custom codecs honour the omit argument (Omit = omit && zero); open finding c01.nested-null is kept out of the values", "concurrent registration is covered by C12 (porcupine register model)"},
@@ -939,6 +943,9 @@ func init() {
 				if a.C("builtin-positions."+k) < 1000 {
 					u = append(u, fmt.Sprintf("builtin-positions.%s=%d < 1000", k, a.C("builtin-positions."+k)))
 				}
+			}
+			if a.C("root-position-ok") < 20 || a.C("enum-registered-ok") < 20 {
+				u = append(u, fmt.Sprintf("root-position-ok=%d enum-registered-ok=%d (< 20)", a.C("root-position-ok"), a.C("enum-registered-ok")))
 			}
 			if a.C("custom-writes") < 5000 || a.C("custom-reads") < 5000 {
 				u = append(u, "too few custom invocations")
